@@ -106,6 +106,54 @@ fn parse_bound(s: &str) -> Bound<Vec<u8>> {
     }
 }
 
+/// The key / name / value arguments of the API are generic (`ToBytes`): the same bytes are passed as
+/// `Vec<u8>`, `&[u8]`, `String`, `&str`, `bytes::Bytes` or `&bytes::Bytes`, chosen by a hash of the
+/// operation line (stable under shrinking).  Borrowed forms are leaked (they must outlive the transaction).
+macro_rules! with_arg {
+    ($bytes:expr, $sel:expr, |$k:ident| $e:expr) => {{
+        let bytes: Vec<u8> = $bytes;
+        let utf8 = std::str::from_utf8(&bytes).is_ok();
+        let sel = if bytes.len() > 4096 { 0 } else { $sel % 6 };
+        match (sel, utf8) {
+            (1, _) => {
+                let $k: &'static [u8] = Box::leak(bytes.into_boxed_slice());
+                $e
+            }
+            (2, true) => {
+                let $k = String::from_utf8(bytes).unwrap();
+                $e
+            }
+            (3, true) => {
+                let $k: &'static str = Box::leak(String::from_utf8(bytes).unwrap().into_boxed_str());
+                $e
+            }
+            (4, _) | (2, false) => {
+                let $k = bytes::Bytes::from(bytes);
+                $e
+            }
+            (5, _) | (3, false) => {
+                let $k: &'static bytes::Bytes = Box::leak(Box::new(bytes::Bytes::from(bytes)));
+                $e
+            }
+            _ => {
+                let $k = bytes;
+                $e
+            }
+        }
+    }};
+}
+
+fn line_sel(f: &[&str], salt: u64) -> u64 {
+    let mut h: u64 = 0xcbf29ce484222325 ^ salt;
+    for w in f {
+        for b in w.bytes() {
+            h = (h ^ b as u64).wrapping_mul(0x100000001b3);
+        }
+        h = (h ^ 0x20).wrapping_mul(0x100000001b3);
+    }
+    h >> 7
+}
+
 impl Env {
     pub fn new(path: &str) -> Env {
         Env {
@@ -315,21 +363,21 @@ impl Env {
                 let t = num(1);
                 let hnew = num(2);
                 let hp = num(3);
-                let name = unhex(f[4]);
+                let sel = line_sel(f, 1);
                 let res = if hp == 0 {
                     let tx = self.tx_ref(t);
-                    match f[0] {
+                    with_arg!(unhex(f[4]), sel, |name| match f[0] {
                         "getb" => tx.get_bucket(name),
                         "mkb" => tx.create_bucket(name),
                         _ => tx.get_or_create_bucket(name),
-                    }
+                    })
                 } else {
                     let (_, b) = self.buckets.get(&hp).expect("unknown handle");
-                    match f[0] {
+                    with_arg!(unhex(f[4]), sel, |name| match f[0] {
                         "getb" => b.get_bucket(name),
                         "mkb" => b.create_bucket(name),
                         _ => b.get_or_create_bucket(name),
-                    }
+                    })
                 };
                 match res {
                     Ok(b) => {
@@ -342,11 +390,13 @@ impl Env {
             "delb" => {
                 let t = num(1);
                 let hp = num(2);
-                let name = unhex(f[3]);
+                let sel = line_sel(f, 2);
                 let res = if hp == 0 {
-                    self.tx_ref(t).delete_bucket(name)
+                    let tx = self.tx_ref(t);
+                    with_arg!(unhex(f[3]), sel, |name| tx.delete_bucket(name))
                 } else {
-                    self.buckets.get(&hp).expect("unknown handle").1.delete_bucket(name)
+                    let b = &self.buckets.get(&hp).expect("unknown handle").1;
+                    with_arg!(unhex(f[3]), sel, |name| b.delete_bucket(name))
                 };
                 match res {
                     Ok(()) => "ok".into(),
@@ -355,7 +405,8 @@ impl Env {
             }
             "put" => {
                 let b = &self.buckets.get(&num(2)).expect("unknown handle").1;
-                match b.put(unhex(f[3]), unhex(f[4])) {
+                let (s1, s2) = (line_sel(f, 3), line_sel(f, 4));
+                match with_arg!(unhex(f[3]), s1, |k| with_arg!(unhex(f[4]), s2, |v| b.put(k, v))) {
                     Ok(None) => "ok:none".into(),
                     Ok(Some(kv)) => format!("ok:K:{}:{}", hex(kv.key()), vtok(kv.value())),
                     Err(e) => err_class(&e),
@@ -363,21 +414,21 @@ impl Env {
             }
             "get" => {
                 let b = &self.buckets.get(&num(2)).expect("unknown handle").1;
-                match b.get(unhex(f[3])) {
+                match with_arg!(unhex(f[3]), line_sel(f, 5), |k| b.get(k)) {
                     None => "none".into(),
                     Some(d) => fmt_data(&d),
                 }
             }
             "getkv" => {
                 let b = &self.buckets.get(&num(2)).expect("unknown handle").1;
-                match b.get_kv(unhex(f[3])) {
+                match with_arg!(unhex(f[3]), line_sel(f, 6), |k| b.get_kv(k)) {
                     None => "none".into(),
                     Some(kv) => format!("K:{}:{}", hex(kv.key()), vtok(kv.value())),
                 }
             }
             "del" => {
                 let b = &self.buckets.get(&num(2)).expect("unknown handle").1;
-                match b.delete(unhex(f[3])) {
+                match with_arg!(unhex(f[3]), line_sel(f, 7), |k| b.delete(k)) {
                     Ok(kv) => format!("ok:K:{}:{}", hex(kv.key()), vtok(kv.value())),
                     Err(e) => err_class(&e),
                 }
@@ -406,7 +457,7 @@ impl Env {
             "seek" => {
                 let b = &self.buckets.get(&num(2)).expect("unknown handle").1;
                 let mut c = b.cursor();
-                let ex = c.seek(unhex(f[3]));
+                let ex = with_arg!(unhex(f[3]), line_sel(f, 8), |k| c.seek(k));
                 let cur = c.current().map(|d| fmt_data(&d)).unwrap_or("none".into());
                 let mut v = Vec::new();
                 while let Some(d) = c.next() {
